@@ -186,11 +186,40 @@ def c08d(ctx):
     # fjall: durability(None) batches are still atomic; nothing to pair
 
 
+def c08h(ctx):
+    """The persisted pending-backward-projection marker is the only record from which an interrupted propagation can be
+    resumed (after a crash, a cancelled query).  It is cleared by done_backward_projection, and that must be the LAST thing
+    invoke_backward_projections does: if the marker is cleared before the projections above the node were re-run, a crash
+    between the two commits leaves a store in which nothing remembers that they are owed - the reopened engine verifies
+    their callers clean on stale values."""
+    prog = ctx.prog
+    o = ctx.ob("C08.h", "invoke_backward_projections/resume-record-cleared-last", "K1", "done_backward_projection is called only after every projection task was spawned and joined")
+    cands = [x for x in prog.find(r"^Snapshot::invoke_backward_projections::\{closure#0\}(::\{closure#0\})?$")]
+    bodies = [x for x in cands if x.calls_to(r"done_backward_projection$")]
+    if len(bodies) != 1:
+        ctx.fail(o, "(program)", "anchor missing: Snapshot::invoke_backward_projections calling done_backward_projection (found %d)" % len(bodies))
+        return
+    b = ctx.touch(bodies[0])
+    done = b.calls_to(r"done_backward_projection$")
+    work = b.calls_to(r"JoinSet::<T>::spawn$|JoinSet::<T>::join_next$|tokio::task::spawn::spawn$")
+    o.sites = len(done) + len(work)
+    if not work:
+        ctx.fail(o, Site(b, 0, 0), "anchor missing: the projection fan-out (JoinSet::spawn / join_next) in invoke_backward_projections")
+        return
+    for d in done:
+        after = b.reachable([d.node["t"]] if d.node.get("t") is not None else [])
+        late = [w for w in work if w.bb in after]
+        if late:
+            ctx.fail(o, d, "invoke_backward_projections clears the pending marker (done_backward_projection) and THEN still spawns / joins projection tasks: a crash between the two "
+                     "commits leaves no record that the projections above this node are owed; after reopening their callers are verified clean with stale values")
+
+
 def run(ctx):
     ctx.run_clause("C08.a", c08a)
     ctx.run_clause("C08.b", c08b)
     ctx.run_clause("C08.c", c08c)
     ctx.run_clause("C08.d", c08d)
+    ctx.run_clause("C08.h", c08h)
     # every crash image is a *prefix* of the committed batches only if the committer applies batches strictly in epoch
     # order: C10.a's rules, evaluated here as C08.f
     from . import C10
